@@ -194,6 +194,9 @@ func StdCheck(e *Explorer, w *worker, prev, ns *State, j int, label string, merg
 	if miss := closure(ns, j); miss != "" {
 		add("C04", "dangling-link", miss)
 	}
+	if class, msg := fieldHeads(ns, j, e.docID); msg != "" {
+		add("C04", class, msg)
+	}
 	// ---- secondary index maintained by local writes and by merges: index-backed reads = listing ----
 	if cfg.IndexProbe != "" && row != nil {
 		vals := map[string]bool{`"a"`: true, "null": true}
@@ -372,6 +375,75 @@ func closure(ns *State, j int) string {
 		}
 	}
 	return ""
+}
+
+// fieldHeads checks the head sets recorded for the fields of the document: they must be exactly the
+// field-level commits linked from merged document-level commits that no other such commit names as
+// parent. Purely structural (blocks and head store of node j).
+func fieldHeads(ns *State, j int, docID string) (string, string) {
+	sn := ns.snaps[j]
+	merged := map[string]uint64{} // field-level commits linked from merged composites -> height
+	parents := map[string]bool{}
+	linkedFrom := map[string]int{} // number of merged composites that link the field-level commit
+	for _, c := range ns.commits {
+		if ns.M[j]&(1<<uint(c.Ord)) == 0 {
+			continue
+		}
+		blk, err := loadBlock(sn, c.Cid)
+		if err != nil {
+			return "", "" // reported as dangling-link
+		}
+		for _, l := range blk.Links {
+			fb, err := loadBlock(sn, l.Cid)
+			if err != nil {
+				return "", ""
+			}
+			merged[l.Cid.String()] = fb.Delta.GetPriority()
+			linkedFrom[l.Cid.String()]++
+			for _, h := range fb.Heads {
+				parents[h.Cid.String()] = true
+			}
+		}
+	}
+	want := map[string]uint64{}
+	for c, h := range merged {
+		if !parents[c] {
+			want[c] = h
+		}
+	}
+	got := map[string]uint64{}
+	pre := "/db/heads/d/" + docID + "/"
+	sn.Each(func(k string, v []byte) {
+		if !strings.HasPrefix(k, pre) || strings.HasPrefix(k, pre+"C/") {
+			return
+		}
+		rest := k[len(pre):]
+		if i := strings.LastIndex(rest, "/"); i >= 0 {
+			h, _ := uvarint(v)
+			got[rest[i+1:]] = h
+		}
+	})
+	if !sameHeads(got, want) {
+		// One shape is a known defect: two nodes wrote the same value on the same field state, which
+		// yields one and the same field-level block under two document-level commits; merging the second
+		// re-applies the block and records it as a head again although a merged commit names it as parent.
+		class := "field-heads-not-maximal:same-field-commit-written-by-two-nodes"
+		for c, h := range got {
+			if wh, ok := want[c]; ok && wh == h {
+				continue
+			}
+			if linkedFrom[c] < 2 {
+				class = "field-heads-not-maximal"
+			}
+		}
+		for c := range want {
+			if _, ok := got[c]; !ok {
+				class = "field-heads-not-maximal"
+			}
+		}
+		return class, fmt.Sprintf("n%d field-level heads recorded %v, field-level commits that no merged commit names as parent %v", j, got, want)
+	}
+	return "", ""
 }
 
 // Replay re-executes a path sequentially on fresh nodes (vkv or badger) and returns the violations
